@@ -55,7 +55,7 @@ func c16Universe(depth int) map[string]interface{} {
 	m := map[string]interface{}{
 		"z": 0.0, "n": nil, "np": np, "len": "shadowed-len", "now": 5.0,
 		"i": 41, "i32": int32(-32), "i64": int64(9007199254740993), "f64": 2.5, "str": "text", "e": "", "bl": false, "t": true,
-		"tm": c16Time, "sl": c16Slice, "f": c16Func,
+		"tm": c16Time, "sl": c16Slice, "f": c16Func, "zt": time.Time{}, "nsl": []string(nil), "nany": []interface{}(nil), "esl": []interface{}{},
 		"mi": map[string]int{"z": 0, "o": 1}, "ms": map[string]string{"e": "", "a": "x"}, "mb": map[string]bool{"f": false, "t": true},
 		"A": "map-A",
 	}
@@ -81,7 +81,7 @@ func c16Universe(depth int) map[string]interface{} {
 	return m
 }
 
-var c16Keys = []string{"k", "s", "A", "b", "z", "q", "n", "np", "len", "now", "i", "i32", "i64", "f64", "str", "e", "bl", "t", "tm", "sl", "f", "mi", "ms", "mb", "M", "o", "a", "I64", "F", "Str", "Z", "Np", "T", "Sl", "x", "Missing", "sa", "sb", "sc", "Name", "Age", "ID"}
+var c16Keys = []string{"k", "s", "A", "b", "z", "q", "n", "np", "len", "now", "i", "i32", "i64", "f64", "str", "e", "bl", "t", "tm", "sl", "f", "mi", "ms", "mb", "M", "o", "a", "I64", "F", "Str", "Z", "Np", "T", "Sl", "x", "Missing", "sa", "sb", "sc", "Name", "Age", "ID", "zt", "nsl", "nany", "esl", "$loc"}
 
 var c16Configs = map[string]func() map[string]interface{}{
 	"full":  func() map[string]interface{} { return c16Universe(3) },
@@ -255,6 +255,10 @@ func sameValue(got, want interface{}) (bool, string) {
 		return got != nil && reflect.TypeOf(got) == reflect.TypeOf(want) && reflect.DeepEqual(got, want), "the same struct"
 	}
 	rv := reflect.ValueOf(want)
+	if rv.Kind() == reflect.Slice && rv.Len() == 0 {
+		gv := reflect.ValueOf(got)
+		return got != nil && gv.Kind() == reflect.Slice && gv.Len() == 0 && gv.Type() == rv.Type(), "the same (empty) slice"
+	}
 	switch rv.Kind() {
 	case reflect.Map, reflect.Slice, reflect.Func:
 		if got == nil {
@@ -296,6 +300,13 @@ func judgePath(c PathCase) *eng.Fail {
 	p := safeParse([]byte("[" + src + ", typeof " + src + ", " + src + " === null]"))
 	if p.panicked || p.err != nil {
 		return eng.F("C16/parse", "%s: %v %s", src, p.err, p.panicMsg)
+	}
+	if data == nil {
+		// another runner that never got a data map assigns a local first: a fresh runner must not see it
+		other := formula.NewRunner()
+		if pre, err := cachedParse("$loc = 7, $loc"); err == nil {
+			safeResolve(other, bg, pre.Expression)
+		}
 	}
 	r := formula.NewRunner()
 	if data != nil {
@@ -371,7 +382,7 @@ func runC16(w *eng.W) {
 		segs = append(segs, "."+k, "!."+k)
 	}
 	var deepSegs []string
-	for _, k := range []string{"k", "s", "M", "q", "n", "np", "z", "i64", "mi", "A", "b", "Missing", "str", "sa", "sb", "Name"} {
+	for _, k := range []string{"k", "s", "M", "q", "n", "np", "z", "i64", "mi", "A", "b", "Missing", "str", "sa", "sb", "Name", "zt", "nsl"} {
 		deepSegs = append(deepSegs, "."+k, "!."+k)
 	}
 	for _, cfg := range []string{"full", "nulls", "empty", "none"} {
